@@ -1,5 +1,7 @@
 import PyYetiVerif.Model.Srs
 import PyYetiVerif.Model.SrsExt
+import PyYetiVerif.Model.SrsFrf
+import PyYetiVerif.Model.SrsPack
 import PyYetiVerif.Generated.SrsCoef
 /-! Line protocol for C03.  Floats travel as decimal `UInt64` bit patterns.
 
@@ -23,6 +25,12 @@ request                                                          reply
 `grid <nfreq> f… fn…`                                            merged grid
 `wts f…`                                                         area weights
 `miles Q fn psd`                                                 Miles' value
+`ppeak Q`                                                        `p_peak`
+`frfgrid Q <nfrq> frf_frq… srs_frq…`                             merged, de-duplicated analysis grid `ffreq`
+`frf <qonly> <getresp> <ret n|0|1> Q <ncols> <nfrq> frf_frq… <given 0|1> <nsrs> srs_frq… (re im)…`
+                                                                 `n nfrf sh…|- or srs_frq…|- or nf ffreq… (re im)…` or `none`
+                                                                 (columns of `frf` column by column; `frfs` in the order k, j, i)
+`srsg <ms|abs> <stype> <ic> <time> <eqsine> Q sr <nf> f… f x…`    `pk h…` or `none`  (callable peak: mean square / abs)
 anything else → `bad-op` -/
 open PyYetiVerif.Srs
 
@@ -193,6 +201,53 @@ def answer (line : String) : String :=
         let sr ← parseF sr; let nf ← nf.toNat?
         let fs ← parseFs (rest.take nf)
         pure (toString (nzeros sr fs))
+    | ["ppeak", q] => do
+        let q ← parseF q
+        pure (fmtF (pPeak q))
+    | "frfgrid" :: q :: nfrq :: rest => do
+        let q ← parseF q; let nfrq ← nfrq.toNat?
+        let a ← parseFs (rest.take nfrq)
+        let b ← parseFs (rest.drop nfrq)
+        pure (fmtFs (frfGrid q a b))
+    | "frf" :: qonly :: getresp :: ret :: q :: ncols :: nfrq :: rest => do
+        let q ← parseF q; let ncols ← ncols.toNat?; let nfrq ← nfrq.toNat?
+        let frq ← parseFs (rest.take nfrq)
+        match rest.drop nfrq with
+        | given :: nsrs :: rest2 =>
+            let nsrs ← nsrs.toNat?
+            let sf ← parseFs (rest2.take nsrs)
+            let vals ← parseFs (rest2.drop nsrs)
+            let rec cpairs : List Float → List (Float × Float)
+              | a :: b :: t => (a, b) :: cpairs t
+              | _ => []
+            let ps := cpairs vals
+            let m := if ncols = 0 then 0 else ps.length / ncols
+            let cols := (List.range ncols).map fun j => (ps.drop (j * m)).take m
+            let retO : Option Bool := if ret == "n" then none else some (ret == "1")
+            match srsFrf cols frq (if given == "1" then some sf else none) q (getresp == "1") retO (qonly == "1") with
+            | none => pure "none"
+            | some out =>
+                let shS := s!"{out.sh.length} {ncols} " ++ fmtFs out.sh.flatten
+                let fS := match out.srsFrq with | none => "-" | some l => fmtFs l
+                let rS := match out.resp with
+                  | none => "-"
+                  | some r => s!"{r.freq.length} " ++ fmtFs r.freq ++ " " ++
+                      fmtFs ((r.frfs.flatten.flatten).flatMap fun z => [z.1, z.2])
+                pure (shS ++ "|" ++ fS ++ "|" ++ rS)
+        | _ => none
+    | "srsg" :: which :: st :: ic :: tm :: es :: q :: sr :: nf :: rest => do
+        let st ← parseSType st; let ic ← parseIc ic; let tm ← parseTime tm
+        let q ← parseF q; let sr ← parseF sr; let nf ← nf.toNat?
+        let fs ← parseFs (rest.take nf)
+        match rest.drop nf with
+        | f :: xs =>
+            let f ← parseF f
+            let xs ← parseFs xs
+            let sel : Float → List Float → Float := if which == "ms" then meanSquare else Peak.abs.sel
+            match srsColG sel st ic tm (es == "1") q sr fs f xs with
+            | some (h, p) => pure (fmtFs (p :: h))
+            | none => pure "none"
+        | [] => none
     | _ => none
   r.getD "bad-op"
 
